@@ -481,11 +481,11 @@ class Normalizer:
         if item == 'collect':
             wrap, coll_ty, ck = kind
             coll = dst['l'] if (wrap is None and not dst['p']) else rw.new_local(coll_ty)
-            new_name = '%s::new' % _ctor_path(ck)
-            pre['st'] and None
-            # the collection is created before the loop
-            nb = rw.new_block()
-            B[bi]['term'] = mk_call(new_name, new_name, None, _ctor_path(ck), 'new', [], coll, head, span)
+            if ck != 'unit':
+                new_name = '%s::new' % _ctor_path(ck)
+                # the collection is created before the loop
+                nb = rw.new_block()
+                B[bi]['term'] = mk_call(new_name, new_name, None, _ctor_path(ck), 'new', [], coll, head, span)
             if wrap is None:
                 self._emit_push(rw, last, coll, ck, item_op, span, cont)
                 if coll != dst['l'] or dst['p']:
@@ -500,13 +500,14 @@ class Normalizer:
                 B[last]['term'] = mk_call('<%s as std::ops::Try>::branch' % wrap, 'std::ops::Try::branch', 'std::ops::Try', wrap, 'branch', [_mv(il)], br, b1, span)
                 B[b1]['st'].append(_discr(dl, _pl(br), line))
                 B[b1]['term'] = {'k': 'switch', 'd': _mv(dl), 'ts': [[0, okb], [1, errb]], 'else': un}
-                self._emit_push(rw, okb, coll, ck, _mv(br, CONT0), span, cont)
+                if ck == 'unit': rw.goto(okb, cont)
+                else: self._emit_push(rw, okb, coll, ck, _mv(br, CONT0), span, cont)
                 res = rw.new_local('?residual')
                 B[errb]['st'].append(_use(res, _mv(br, BREAK0), line))
                 B[errb]['term'] = mk_call('<%s as std::ops::FromResidual>::from_residual' % wrap, 'std::ops::FromResidual::from_residual', 'std::ops::FromResidual', wrap, 'from_residual', [_mv(res)], dst, after, span)
                 if item_op['k'] in ('move', 'copy') and not item_op['pl']['p']:
                     _thread_try(rw, last, item_op['pl']['l'], okb, errb, br, wrap)
-                B[done]['st'].append(_agg(dst, 'std::result::Result::Ok' if wrap.startswith('std::result::Result') else 'std::option::Option::Some', [_mv(coll)], line=line))
+                B[done]['st'].append(_agg(dst, 'std::result::Result::Ok' if wrap.startswith('std::result::Result') else 'std::option::Option::Some', [_const('()', '()') if ck == 'unit' else _mv(coll)], line=line))
                 rw.goto(done, after)
         elif item in ('sum', 'product'):
             acc = dst['l'] if not dst['p'] else rw.new_local(dty)
@@ -818,6 +819,9 @@ def _collection_kind(ty):
             for pre, k in COLL:
                 if inner.startswith(pre):
                     return (ty, _first_generic(ty[len(w) - 1:]), k)
+            # collect::<Result<(), E>>() / collect::<Option<()>>(): nothing is gathered, the loop only propagates
+            # the first failure (what try_for_each does)
+            if re.match(r'\(\)\s*[,>]', inner): return (ty, '()', 'unit')
     return None
 
 
